@@ -384,3 +384,76 @@ func evalUint8Predicate(fn *ssa.Function) ([256]bool, bool) {
 	}
 	return tt, true
 }
+
+// trace walks fn's CFG from entry with the given arguments, evaluating what is pure and
+// treating everything else as unknown. It stops at a Return, or at an If whose condition is
+// unknown, and returns the blocks visited and the instruction it stopped at. This extracts
+// the control skeleton of a function whose branch conditions are pure predicates of its
+// inputs (decision-table extraction); no heap effects are simulated.
+func (e *evaluator) trace(fn *ssa.Function, args []evalVal) (visited []*ssa.BasicBlock, end ssa.Instruction) {
+	env := map[ssa.Value]evalVal{}
+	for i, p := range fn.Params {
+		if i < len(args) {
+			env[p] = args[i]
+		}
+	}
+	cells := map[ssa.Value]evalVal{}
+	var prev *ssa.BasicBlock
+	b := fn.Blocks[0]
+	for steps := 0; steps < 10000; steps++ {
+		visited = append(visited, b)
+		var next *ssa.BasicBlock
+		for _, ins := range b.Instrs {
+			switch x := ins.(type) {
+			case *ssa.Phi:
+				for i, p := range b.Preds {
+					if p == prev {
+						sub := &evaluator{}
+						if v, ok := sub.val(env, x.Edges[i]); ok && v.ok {
+							env[x] = v
+						}
+					}
+				}
+			case *ssa.Alloc:
+				cells[x] = evalVal{ok: true}
+			case *ssa.Store:
+				if al, isAl := x.Addr.(*ssa.Alloc); isAl {
+					sub := &evaluator{}
+					if v, ok := sub.val(env, x.Val); ok {
+						cells[al] = v
+					} else {
+						delete(cells, al)
+					}
+				}
+			case *ssa.If:
+				sub := &evaluator{}
+				c, ok := sub.val(env, x.Cond)
+				if !ok || !c.ok {
+					return visited, ins
+				}
+				if c.u != 0 {
+					next = b.Succs[0]
+				} else {
+					next = b.Succs[1]
+				}
+			case *ssa.Jump:
+				next = b.Succs[0]
+			case *ssa.Return, *ssa.Panic:
+				return visited, ins
+			case ssa.Value:
+				sub := &evaluator{}
+				if v, ok := sub.instr(env, cells, x); ok && v.ok {
+					env[x] = v
+				}
+			}
+			if next != nil {
+				break
+			}
+		}
+		if next == nil {
+			return visited, nil
+		}
+		prev, b = b, next
+	}
+	return visited, nil
+}
